@@ -233,6 +233,19 @@ def check(F, rep, tier):
         got_ts = re.findall(r"Timestamp\(to_string\('([^']+)'", txt)
         ok = len(elems) == 4 and got_ts[:3] == want and "Patch" in elems[3]
         if ok: rep.ok("R17.6", "calver core = [ts(YYYY), ts(MM), ts(DD), Patch]", sample=elems, nontrivial_key="calver")
+        elif not elems:
+            # not a `vec![..]` literal (e.g. an iterator chain): read the pattern constants in construction order instead
+            pats = []
+            for g_ in [cc] + mir.closures_in(F, cc):
+                for bi, si, st in g_.stmts():
+                    if st[0] == "=" and st[2][0] == "agg" and st[2][1].get("k") == "array":
+                        for a in st[2][2]:
+                            v = mir.const_arg(g_, a)
+                            if isinstance(v, str): pats.append(v)
+            has_patch = any("Var::Patch" in str(st) or "'Patch'" in str(st) for g_ in [cc] + mir.closures_in(F, cc) for bi, si, st in g_.stmts())
+            if pats[:3] == want and len(pats) == 3 and has_patch: rep.ok("R17.6", "calver core is built from the patterns YYYY, MM, DD (in this order) and Patch", sample=pats, nontrivial_key="calver")
+            elif pats and pats[:3] != want: rep.bad("R17.6", "calver-core", "calver_core is built from the patterns %s, expected YYYY, MM, DD then Patch" % pats, cc.where())
+            else: rep.undecided("R17.6", "calver-core-shape", "how calver_core builds its component list is not recognised", cc.where())
         else: rep.bad("R17.6", "calver-core", "calver_core is %s, expected [ts(YYYY), ts(MM), ts(DD), var(Patch)]" % elems, cc.where())
     # ---- R17.7 dependencies: the instant that is formatted is the commit time git reports, or the one given on the command line -------
     core.borrow(F, rep, "c02", "C02", "R17.7", ("argv:get_commit_timestamp#0", "argv:get_tag_timestamp#0", "tag-peel", "wiring:bumped_timestamp", "wiring:last_timestamp"), "the timestamps are the committer dates of HEAD and of the tagged commit")
